@@ -96,6 +96,9 @@ type c16SIView struct {
 	mdAttr         []byte // value of the messageDigest attribute
 	stAttr         []byte // raw value TLV of the signing-time attribute
 	sig            []byte
+	encOID         []byte   // digestEncryptionAlgorithm OID content
+	unauth         [][]byte // OID contents of the unauthenticated attributes ([1] after the signature value)
+	hasUnauth      bool
 }
 
 var c16OIDMessageDigest = []byte{0x2a, 0x86, 0x48, 0x86, 0xf7, 0x0d, 0x01, 0x09, 0x04}
@@ -145,12 +148,64 @@ func c16ReadSigners(der []byte, body *sim.TLV) ([]c16SIView, bool) {
 				v.attrsSet = append(append([]byte{0x31}, c16Len(len(e.Content))...), e.Content...)
 			case e.Tag == 0x30 && !seenAlg:
 				seenAlg = true
+				if len(e.Children) > 0 {
+					v.encOID = e.Children[0].Content
+				}
 			case e.Tag == 0x04 && seenAlg && v.sig == nil:
 				v.sig = append([]byte{}, e.Content...)
+			case e.Tag == 0xa1 && v.sig != nil:
+				v.hasUnauth = true
+				for _, a := range e.Children {
+					if a.Tag == 0x30 && len(a.Children) > 0 {
+						v.unauth = append(v.unauth, a.Children[0].Content)
+					}
+				}
 			}
 		}
 		if v.sig == nil {
 			return nil, false
+		}
+		out = append(out, v)
+	}
+	return out, true
+}
+
+// c16RIView is the harness' own reading of one RecipientInfo of a produced (DER) message.
+type c16RIView struct {
+	version        int
+	issuer, serial []byte // version 0 / 1: issuerAndSerialNumber
+	ski            []byte // version 2: [0] subjectKeyIdentifier
+	keyAlg         []byte // keyEncryptionAlgorithm OID content
+	encKey         []byte
+}
+
+func c16ReadRecipients(der []byte, body *sim.TLV) ([]c16RIView, bool) {
+	set := c16RecipientSet(body)
+	if set == nil {
+		return nil, false
+	}
+	var out []c16RIView
+	for _, ri := range set.Children {
+		k := ri.Children
+		if ri.Tag != 0x30 || len(k) < 4 || k[0].Tag != 0x02 || len(k[0].Content) != 1 {
+			return nil, false
+		}
+		v := c16RIView{version: int(k[0].Content[0])}
+		switch {
+		case k[1].Tag == 0x30 && len(k[1].Children) == 2:
+			v.issuer, v.serial = c16Raw(der, k[1].Children[0]), k[1].Children[1].Content
+		case k[1].Tag == 0x80:
+			v.ski = k[1].Content
+		default:
+			return nil, false
+		}
+		last := k[len(k)-1]
+		if last.Tag != 0x04 {
+			return nil, false
+		}
+		v.encKey = last.Content
+		if alg := k[len(k)-2]; alg.Tag == 0x30 && len(alg.Children) > 0 {
+			v.keyAlg = alg.Children[0].Content
 		}
 		out = append(out, v)
 	}
